@@ -162,3 +162,20 @@ Theorem C08_gen_degree_reduction_Q : forall (p : nat) (P : list (list Q)),
   Helpers.degree_reduction Qops (Z.of_nat p) P true = res_to_gres (fun x => x) GeomdlError IndexError (degree_reduction_pts Qops p P).
 Proof. exact degree_reduction_tie_Q. Qed.
 Print Assumptions C08_gen_degree_reduction_Q.
+
+(* ---- second round (C08): add  Gen.PreludeExt Gen.LinalgMat Gen.HelpersB Proofs.GenTieBinom Proofs.GenTieElev ---- *)
+From NV Require Import Gen.HelpersB Proofs.GenTieElev.
+(* [G] helpers.degree_elevation, check_num = True, control points = lists of coordinates: ALL inputs (num : Z arbitrary);
+   GeomdlException <-> Rejected.  Under bin_laws (the source's binomial coefficients are quotients of factorials) *)
+Theorem C08_gen_degree_elevation_R : forall (p : nat) (P : list (list R)) (num : Z),
+  HelpersB.degree_elevation Rops (Z.of_nat p) P true num = res_to_gres (fun x => x) GeomdlError IndexError (degree_elevation_pts Rops p P num).
+Proof. exact degree_elevation_tie_R. Qed.
+Print Assumptions C08_gen_degree_elevation_R.
+Theorem C08_gen_degree_elevation_Q : forall (p : nat) (P : list (list Q)) (num : Z),
+  HelpersB.degree_elevation Qops (Z.of_nat p) P true num = res_to_gres (fun x => x) GeomdlError IndexError (degree_elevation_pts Qops p P num).
+Proof. exact degree_elevation_tie_Q. Qed.
+Print Assumptions C08_gen_degree_elevation_Q.
+Example C08_gen_nonvacuous2 :
+  HelpersB.degree_elevation Qops 3 [[0; 0]; [1; 2]; [3; 2]; [4; 0]]%Q true 1 = GOk [[0; 0]; [3#4; 3#2]; [2; 2]; [13#4; 3#2]; [4; 0]]%Q.
+Proof. vm_compute; reflexivity. Qed.
+
